@@ -182,6 +182,77 @@ func runC08(r *Rec) {
 		}
 	}
 
+	// ---------- B2. "completely or not at all": a content whose handler performs several writes and fails at a later one
+	// must leave no trace (the router applies it on a branch of the store and keeps the branch only on success)
+	r.Mark("enactment atomicity")
+	{
+		w := NewWorld(WorldOpts{NAcc: 4, NVal: 1, SudoAccs: []int{0}})
+		ctx := w.KeeperCtx()
+		k := w.app.CustomGovKeeper
+		router := k.GetProposalRouter()
+		dump := func() map[string]string {
+			m := map[string]string{}
+			for _, name := range c01Stores {
+				if key := w.app.GetKey(name); key != nil {
+					for kk, vv := range dumpStore(ctx, key) {
+						m[name+"/"+kk] = string(vv)
+					}
+				}
+			}
+			return m
+		}
+		minEnd := k.GetNetworkProperties(ctx).MinimumProposalEndTime
+		types := []string{"CreateRole", "SetNetworkProperty", "UpsertDataRegistry", "SetPoorNetworkMessages"}
+		for i := 0; i < 12; i++ {
+			// durations: the first n are acceptable, the one at position `bad` is below the network minimum
+			n := 2 + r.Rng.Intn(3)
+			bad := 1 + r.Rng.Intn(n-1)
+			if i%4 == 3 {
+				bad = -1 // a fully valid content: applied completely
+			}
+			var ts []string
+			var ds []uint64
+			for j := 0; j < n; j++ {
+				ts = append(ts, types[j])
+				d := minEnd + 100 + uint64(r.Rng.Intn(500))
+				if j == bad {
+					d = minEnd - 1 - uint64(r.Rng.Intn(int(minEnd)/2))
+				}
+				ds = append(ds, d)
+			}
+			before := dump()
+			var err error
+			func() {
+				defer func() {
+					if rec := recover(); rec != nil {
+						err = fmt.Errorf("panic: %v", rec)
+					}
+				}()
+				err = router.ApplyProposal(ctx, uint64(9000+i), govtypes.NewSetProposalDurationsProposal(ts, ds), sdk.ZeroDec())
+			}()
+			after := dump()
+			r.Case(fmt.Sprintf("atomicity/%d/%d/%v", n, bad, err == nil), true)
+			r.Count(fmt.Sprintf("atomicity:failed=%v", err != nil))
+			if err != nil {
+				for kk, vv := range after {
+					if before[kk] != vv {
+						r.Fail("C08/enactment/failed-content-left-writes", fmt.Sprintf("SetProposalDurations %v %v failed (%v) but the store changed at %q", ts, ds, err, kk), nil)
+						break
+					}
+				}
+			} else {
+				for j, t := range ts {
+					if got := k.GetProposalDuration(ctx, t); got != ds[j] {
+						r.Fail("C08/enactment/applied-incompletely", fmt.Sprintf("duration of %s is %d after a successful SetProposalDurations to %d", t, got, ds[j]), nil)
+					}
+				}
+			}
+			if (err != nil) != (bad >= 0) {
+				r.Fail("C08/enactment/unexpected-verdict", fmt.Sprintf("SetProposalDurations %v %v: err=%v", ts, ds, err), nil)
+			}
+		}
+	}
+
 	// ---------- C. lifecycle histories on the real msg server + EndBlocker
 	nHist := 30
 	steps := 90
